@@ -13,7 +13,10 @@ def group_ungroup(chk, rule):
     mg, g = repo.func("group")
     mu, ug = repo.func("ungroup")
     a, G, gs, b = Mono(1, "a"), Mono(1, "G"), Mono(1, "g"), Mono(1, "b")
-    cases = [(0, [a, G * gs], "2-D, kept axis first"), (-1, [G * gs, a], "2-D, kept axis last"), (0, [a, b, G * gs], "3-D, kept axis first"), (-1, [b, G * gs, a], "3-D, kept axis last")]
+    cases = [(0, [a, G * gs], "2-D, kept axis first"), (-1, [G * gs, a], "2-D, kept axis last"), (0, [a, b, G * gs], "3-D, kept axis first"), (-1, [b, G * gs, a], "3-D, kept axis last"),
+             # degenerate extents: a dimension that equals the group size (early exits compare sizes)
+             (0, [a, gs], "2-D, one group per row"), (-1, [gs, a], "2-D, one group per column"),
+             (0, [a, b, gs], "3-D, last dim equal to the group size"), (-1, [b, gs, a], "3-D, middle dim equal to the group size")]
     n = 0
     for axis, shape, what in cases:
         site = f"{mg.rel}:{g.lineno}"
